@@ -784,7 +784,7 @@ def iter_axis(img, axis, asarray=False):
     rimg = rollimg(img, axis)
     for i in range(rimg.shape[0]):
         if asarray:
-            yield rimg[i].get_fdata()
+            yield rimg.get_fdata()[i]
         else:
             yield rimg[i]
 
